@@ -19,6 +19,28 @@ def NoEvict (se : Bool) : C → List Op → Prop
       | .set _ k _ _ => lookup c.order k ≠ none ∨ c.order.length < c.cap
       | _ => True) ∧ NoEvict se (step se c op) t
 
+/-- weaker: a `Set` of a new key may find the cache full, provided an entry whose lifetime has elapsed is among the
+    stored ones (the eviction then reclaims that slot — the live entries still fit the capacity) -/
+def NoLiveEvict (se : Bool) : C → List Op → Prop
+  | _, [] => True
+  | c, op :: t =>
+    (match op with
+      | .set now k _ _ => lookup c.order k ≠ none ∨ c.order.length < c.cap ∨ (c.order.find? (expired se now)).isSome = true
+      | _ => True) ∧ NoLiveEvict se (step se c op) t
+
+theorem NoEvict.weaken (se : Bool) : ∀ (ops : List Op) (c : C), NoEvict se c ops → NoLiveEvict se c ops
+  | [], _, _ => trivial
+  | op :: t, c, h => by
+    unfold NoEvict at h
+    unfold NoLiveEvict
+    refine ⟨?_, NoEvict.weaken se t _ h.2⟩
+    cases op with
+    | set now k v ttl =>
+      rcases h.1 with h1 | h1
+      · exact .inl h1
+      · exact .inr (.inl h1)
+    | _ => trivial
+
 /-- every stored, undeleted value is either present with the right expiry or already expired -/
 def Complete (se : Bool) (c : C) (m : Spec) (last : Int) : Prop :=
   ∀ k v ts ttl, m k = some (v, ts, ttl) →
@@ -40,7 +62,7 @@ theorem unique_of_nodup {l : List Entry} (h : NoDup l) {a b : Entry} (ha : a ∈
 theorem complete_step (se) (c : C) (m : Spec) (last : Int) (op : Op) (hinv : Inv c)
     (h : Complete se c m last)
     (hne : match op with
-      | .set _ k _ _ => lookup c.order k ≠ none ∨ c.order.length < c.cap
+      | .set now k _ _ => lookup c.order k ≠ none ∨ c.order.length < c.cap ∨ (c.order.find? (expired se now)).isSome = true
       | _ => True)
     (hlast : ∀ now, op.time = some now → last ≤ now) :
     Complete se (step se c op) (specStep m op) (match op.time with | some now => now | none => last) := by
@@ -61,19 +83,31 @@ theorem complete_step (se) (c : C) (m : Spec) (last : Int) (op : Op) (hinv : Inv
       · simp only; exact ⟨⟨k', v, now + ttl⟩, by simp, rfl, rfl, rfl⟩
     · simp only [hk, if_false] at hm
       rcases h k' v' ts' ttl' hm with ⟨e, he, hek, hev, hee⟩ | hexp
-      · left
-        have hek' : e.key ≠ k := by rw [hek]; exact hk
+      · have hek' : e.key ≠ k := by rw [hek]; exact hk
         split
-        · exact ⟨e, List.mem_append_left _ (mem_remove_of he hek'), hek, hev, hee⟩
+        · left; exact ⟨e, List.mem_append_left _ (mem_remove_of he hek'), hek, hev, hee⟩
         · rename_i hnone
           simp only at hne
-          have hlt : c.order.length < c.cap := by
-            rcases hne with h1 | h1
-            · exact absurd hnone h1
-            · exact h1
-          have : ¬ c.order.length ≥ c.cap := by omega
-          simp only [this, if_false]
-          exact ⟨e, List.mem_append_left _ he, hek, hev, hee⟩
+          by_cases hfull : c.order.length ≥ c.cap
+          · simp only [hfull, if_true]
+            have hsome : (c.order.find? (expired se now)).isSome = true := by
+              rcases hne with h1 | h1 | h1
+              · exact absurd hnone h1
+              · omega
+              · exact h1
+            obtain ⟨x, hx⟩ := Option.isSome_iff_exists.mp hsome
+            unfold evict
+            simp only [hx]
+            by_cases hxe : e.key = x.key
+            · -- the reclaimed entry is this one: its lifetime has elapsed
+              have hxm : x ∈ c.order := List.mem_of_find?_eq_some hx
+              have : e = x := unique_of_nodup hinv.1 he hxm hxe
+              subst this
+              have hxp : expired se now e = true := List.find?_some hx
+              right; rw [expired_eq, hee] at hxp; exact hxp
+            · left; exact ⟨e, List.mem_append_left _ (mem_remove_of he hxe), hek, hev, hee⟩
+          · simp only [hfull, if_false]
+            left; exact ⟨e, List.mem_append_left _ he, hek, hev, hee⟩
       · right; exact expiredAt_mono se hl hexp
   | get now k =>
     have hl := hlast now rfl
@@ -117,7 +151,7 @@ theorem complete_step (se) (c : C) (m : Spec) (last : Int) (op : Op) (hinv : Inv
     · right; exact expiredAt_mono se hl hexp
 
 theorem complete_run (se) (ops : List Op) (c : C) (m : Spec) (lo hi : Int) (hc : 0 < c.cap) (hinv : Inv c)
-    (h : Complete se c m lo) (hne : NoEvict se c ops) (hm : Mono lo ops hi) :
+    (h : Complete se c m lo) (hne : NoLiveEvict se c ops) (hm : Mono lo ops hi) :
     Complete se (ops.foldl (step se) c) (ops.foldl specStep m) hi := by
   induction ops generalizing c m lo with
   | nil =>
@@ -127,7 +161,7 @@ theorem complete_run (se) (ops : List Op) (c : C) (m : Spec) (lo hi : Int) (hc :
     · exact Or.inr (expiredAt_mono se hm h1)
   | cons op t ih =>
     simp only [List.foldl_cons]
-    unfold NoEvict at hne
+    unfold NoLiveEvict at hne
     unfold Mono at hm
     have hcap := step_cap se c op
     have hinv' := inv_step se c op hc hinv
@@ -143,10 +177,11 @@ theorem complete_run (se) (ops : List Op) (c : C) (m : Spec) (lo hi : Int) (hc :
       simp only [hot] at this
       exact ih _ _ lo (by rw [hcap]; exact hc) hinv' this hne.2 hm
 
-/-- **C12 completeness.** While capacity is never exceeded, a value that was stored, not deleted and not
-    overwritten since, and whose lifetime has not elapsed, is returned. -/
-theorem get_complete (se : Bool) (cap : Nat) (hc : 0 < cap) (ops : List Op) (t0 now : Int) (k : String)
-    (v : Nat) (ts ttl : Int) (hm : Mono t0 ops now) (hne : NoEvict se (init cap) ops)
+/-- **C12 completeness.** While the *live* entries fit the capacity (a `Set` of a new key finds a free slot, or an entry
+    whose lifetime has elapsed to reclaim), a value that was stored, not deleted and not overwritten since, and whose
+    lifetime has not elapsed, is returned. -/
+theorem get_complete_live (se : Bool) (cap : Nat) (hc : 0 < cap) (ops : List Op) (t0 now : Int) (k : String)
+    (v : Nat) (ts ttl : Int) (hm : Mono t0 ops now) (hne : NoLiveEvict se (init cap) ops)
     (hs : spec ops k = some (v, ts, ttl)) (hlive : expiredAt se now (ts + ttl) = false) :
     (get se (run se (init cap) ops) now k).2 = some v := by
   have hinv0 : Inv (init cap) := ⟨by simp [init, NoDup], by simp [init]⟩
@@ -165,5 +200,12 @@ theorem get_complete (se : Bool) (cap : Nat) (hc : 0 < cap) (ops : List Op) (t0 
       rw [expired_eq, hee, hlive]
       simp [hev]
   · rw [hlive] at hexp; cases hexp
+
+/-- the special case in which no `Set` of a new key ever finds the cache full -/
+theorem get_complete (se : Bool) (cap : Nat) (hc : 0 < cap) (ops : List Op) (t0 now : Int) (k : String)
+    (v : Nat) (ts ttl : Int) (hm : Mono t0 ops now) (hne : NoEvict se (init cap) ops)
+    (hs : spec ops k = some (v, ts, ttl)) (hlive : expiredAt se now (ts + ttl) = false) :
+    (get se (run se (init cap) ops) now k).2 = some v :=
+  get_complete_live se cap hc ops t0 now k v ts ttl hm (NoEvict.weaken se ops _ hne) hs hlive
 
 end Oidc.Cache
